@@ -369,6 +369,18 @@ def walk(t):
         yield from walk(t[1])
 
 
+def subst(t, old, new, _depth=0):
+    """t with every occurrence of the sub-term `old` replaced by `new`, re-simplified (`(a, b).0` -> a)"""
+    if t == old:
+        return new
+    if not isinstance(t, tuple) or _depth > 60:
+        return t
+    out = tuple(subst(x, old, new, _depth + 1) if isinstance(x, tuple) else x for x in t)
+    if out != t and out and out[0] in ("field", "cindex", "deref"):
+        out = simp(out)
+    return out
+
+
 def narrow_variants(t):
     """rewrite `(φ(a, b, ..) as V).i`: a downcast to variant V is only ever executed on a value that is a V, so alternatives that
     are literal aggregates of another variant are dropped; a single remaining aggregate yields its field.  NOT valid for
